@@ -22,7 +22,7 @@ for sid in sorted(os.listdir(f"{V}/seeded")):
     meta = json.load(open(mp))
     h = hist.get(sid, [])
     if h:
-        last = h[-1]
+        last = next((x for x in reversed(h) if not x["clean_demo"].startswith("(")), h[-1])
         meta["confirmed"] = {"how": "tools/seedcheck.sh: scratch worktree of /repo; demo test on clean tree, demo test with patch, full go test ./... with patch",
                              "clean_demo": last["clean_demo"], "mutant_demo": last["mutant_demo"], "existing_suite_with_patch": last["suite"]}
         meta["quick_check_history"] = [{"round": x["round"], "exit": x["exit"], "caught_by": x["caught_by"]} for x in h]
